@@ -167,7 +167,7 @@ pub fn run(ctx: &Ctx) -> CheckOutput {
 			names.push(format!("a.{c}"));
 		}
 	}
-	for n in ["a.json.yaml", "a.yaml.json", ".json", "a.", "noext", "a.txt", "a.jsonx", "a.JSON.bak", "dir.yaml/a.toml", "a.b.c.yml", "-.json", "a.j"] {
+	for n in ["a.json.yaml", "a.yaml.json", ".json", "a.", "noext", "a.txt", "a.jsonx", "a.JSON.bak", "dir.yaml/a.toml", "a.b.c.yml", "-.json", "a.j", "a.m", "a.t", "a.y", "a.Y", "a.yam", "a.jso"] {
 		names.push(n.to_string());
 	}
 	let ncontents = contents().len();
@@ -233,11 +233,13 @@ pub fn run(ctx: &Ctx) -> CheckOutput {
 					}
 					args.extend(list.iter().map(|s| s.to_string()));
 					let argv: Vec<&str> = args.iter().map(String::as_str).collect();
+					// stdin as a pipe and as a regular file (shell redirect)
+					for stdin_file in [false, true] {
 					let mut sp = Spawn::new(multi.path(), &argv);
-					sp.stdin = Stdin::Bytes(stdin.to_vec());
+					sp.stdin = if stdin_file { Stdin::File(multi.write("stdin-fixture", stdin)) } else { Stdin::Bytes(stdin.to_vec()) };
 					let o = proc::run(&sp);
 					tally.evaluations += 1;
-					tally.count("multi-input:lists");
+					tally.count(if stdin_file { "multi-input:stdin-regular-file" } else { "multi-input:lists" });
 					let inputs: Vec<String> = list.iter().filter(|s| **s != "--").map(|s| s.to_string()).collect();
 					let lib = library_run(multi.path(), &inputs, fopt, to, stdin);
 					let good = match (&o.exit, lib.failed_at) {
@@ -246,8 +248,9 @@ pub fn run(ctx: &Ctx) -> CheckOutput {
 						_ => false,
 					};
 					if !good {
-						tally.bad("multi-input-disagrees-with-library", json!({"kind": "multi", "argv": argv, "stdin": show(stdin)}),
-							format!("xt {argv:?} (stdin {}): {} | library: failed_at={:?} bytes={}", show(stdin), o.brief(), lib.failed_at, show(&lib.bytes)));
+						tally.bad("multi-input-disagrees-with-library", json!({"kind": "multi", "argv": argv, "stdin": show(stdin), "stdin_file": stdin_file}),
+							format!("xt {argv:?} (stdin {} as a {}): {} | library: failed_at={:?} bytes={}", show(stdin), if stdin_file { "regular file" } else { "pipe" }, o.brief(), lib.failed_at, show(&lib.bytes)));
+					}
 					}
 				}
 			}
@@ -299,7 +302,7 @@ pub fn run(ctx: &Ctx) -> CheckOutput {
 	});
 	tally.merge(Tally::merge_all(tp));
 	let req = |k: &str| (k.to_string(), *tally.counters.get(k).unwrap_or(&0));
-	let required = vec![req("supply:StdinPackets"), req("supply:File"), req("supply:Fifo"), req("supply:StdinImplicit"), req("supply:StdinDash"), req("f:absent"), req("f:yaml"), req("multi-input:lists")];
+	let required = vec![req("supply:StdinPackets"), req("supply:File"), req("supply:Fifo"), req("supply:StdinImplicit"), req("supply:StdinDash"), req("f:absent"), req("f:yaml"), req("multi-input:lists"), req("multi-input:stdin-regular-file")];
 	CheckOutput {
 		level: "exploration",
 		tally,
